@@ -181,6 +181,14 @@ class Runner:
         return data, rej
 
 
+def data_size(d):
+    """size of a data definition without materialising its image"""
+    n = 0
+    for ty, v in d.items:
+        n += v if ty == 'z' else (len(v[1]) if v[0] == 'str' else ilparse.ITEMSIZE[ty])
+    return n
+
+
 def rejtext(st_err):
     st, err = st_err
     return 'rejected (status %d: %s)' % (st, err.decode(errors='replace').strip().split('error: ')[-1][:90])
@@ -263,7 +271,7 @@ def run_cases(cases, tgt, targets, full=True):
                 lo, hi = M.int_range(t, tgt)
                 items.append(('c%d' % i, 'int c%d = %s ? 11 : 22;\n' % (i, c.src)))
                 want['c%d' % i] = (11 if v else 22).to_bytes(4, 'little')
-                if 1 <= v <= 1 << 31:
+                if 1 <= v <= 1 << 40:
                     items.append(('a%d' % i, 'char a%d[%s];\n' % (i, c.src)))
                     want['a%d' % i] = v
                 elif v < 0:
@@ -302,13 +310,14 @@ def run_cases(cases, tgt, targets, full=True):
                 if d is None:
                     bad(c, ctx, target, 'object not emitted')
                     continue
+                if isinstance(w, int):
+                    if data_size(d) != w:
+                        bad(c, ctx, target, 'array of %d elements' % data_size(d))
+                    continue
                 img = ilparse.data_image(d)[0]
                 if isinstance(w, tuple):
                     if (d.align or 1) != w[1]:
                         bad(c, ctx, target, 'alignment %s' % d.align)
-                elif isinstance(w, int):
-                    if len(img) != w:
-                        bad(c, ctx, target, 'array of %d elements' % len(img))
                 elif img != w:
                     bad(c, ctx, target, 'value %d' % int.from_bytes(img, 'little', signed=key[0] == 'g'))
             for c, ctx, text in singles:
